@@ -316,10 +316,10 @@ class C12(core.Check):
                 elif fn == "validate":
                     calls.append({"fn": fn, "d": di, "version": same_version if same_version is not None else r.choice(VERSIONS)})
                 elif fn in ("find", "findall"):
-                    calls.append({"fn": fn, "d": di, "list": r.choice(["layers", "classes", "styles"]), "key": r.choice(["name", "NAME", "type", "group", "status"]),
+                    calls.append({"fn": fn, "d": di, "list": r.choice(["layers", "classes", "styles"]), "key": r.choice(["name", "NAME", "type", "group", "status", "metadata.wms_title", "metadata", "classes.0.name", "web/metadata", "name*"]),
                                   "from_item": r.randrange(4)})
                 elif fn == "findunique":
-                    calls.append({"fn": fn, "d": di, "list": r.choice(["layers", "classes"]), "key": r.choice(["name", "type", "group"])})
+                    calls.append({"fn": fn, "d": di, "list": r.choice(["layers", "classes"]), "key": r.choice(["name", "type", "group", "metadata.wms_title"])})
                 elif fn == "findkey":
                     calls.append({"fn": fn, "d": di, "path": r.choice([["layers", 0], ["layers", 0, "classes", 0], ["web"], ["name"], []])})
                 else:
